@@ -200,7 +200,8 @@ func (w *world) settle() bool {
 				return false
 			}
 		}
-		return GoroutinesMatching("closeLocked") == 0 && GoroutinesMatching("readDisconnected") == 0
+		d := GoroutineDump()
+		return CountIn(d, "closeLocked") == 0 && CountIn(d, "readDisconnected") == 0
 	})
 }
 
@@ -488,6 +489,7 @@ func runHist(cfg *RunCfg) {
 				}
 				kind = "rclose"
 				in = VL(VS("rclose"), VN(int64(pr.n)))
+				WaitUntil(settleTimeout, func() bool { return !pr.p.Health() }) // the loss has to be noticed first
 			case k < 87:
 				pr := es[r.Intn(len(es))]
 				if pr.pconn != nil {
@@ -497,6 +499,7 @@ func runHist(cfg *RunCfg) {
 				}
 				kind = "cut"
 				in = VL(VS("cut"), VN(int64(pr.n)))
+				WaitUntil(settleTimeout, func() bool { return !pr.p.Health() }) // the loss has to be noticed first
 			case k < 90 && !pclosed:
 				pclosed = true
 				w.P.Close()
